@@ -77,28 +77,37 @@ mod dispatch {
         kani::assume(v < B);
         assert!(out[v] == ref_body_byte(&b, v, q1, q2, q3), "agg.dispatch.result_is_the_contract_result");
     }
-    // @ob id=agg.dispatch.48 props=C07,C01,C18 rows=simd kind=HC+stub fn=generate::bucket_aggregation::aggregate_48 domain="all CPU feature masks (2^128) x all inputs; OnceLock executed single-threaded; back ends by their proved contracts" replay=none
+    // @ob id=agg.dispatch.48 props=C07,C01,C18 rows=simd kind=HC+stub fn=generate::bucket_aggregation::aggregate_48 domain="all CPU feature masks (2^128) x all inputs; OnceLock executed single-threaded (first call: initialisation included); back ends by their proved contracts; allocator entry points stubbed to panic" replay=none
     #[kani::proof]
     #[kani::unwind(14)]
     #[kani::stub(std_detect::detect::cache::test, verif_support::model_detect_test)]
+    #[kani::stub(alloc::alloc::alloc, verif_support::no_alloc)]
+    #[kani::stub(alloc::alloc::alloc_zeroed, verif_support::no_alloc)]
+    #[kani::stub(alloc::alloc::realloc, verif_support::no_realloc)]
     #[kani::stub(super::super::x86_avx2::aggregate_48, m48)]
     #[kani::stub(super::super::x86_ssse3::aggregate_48, m48)]
     #[kani::stub(super::super::x86_sse2::aggregate_48, m48)]
     #[kani::stub(super::super::naive::aggregate_48, n48)]
     pub fn ob_dispatch_48() { check_dispatch::<12, 48>(super::super::aggregate_48) }
-    // @ob id=agg.dispatch.128 props=C07,C01,C18 rows=simd kind=HC+stub fn=generate::bucket_aggregation::aggregate_128 domain="all CPU feature masks (2^128) x all inputs; OnceLock executed single-threaded; back ends by their proved contracts" replay=none
+    // @ob id=agg.dispatch.128 props=C07,C01,C18 rows=simd kind=HC+stub fn=generate::bucket_aggregation::aggregate_128 domain="all CPU feature masks (2^128) x all inputs; OnceLock executed single-threaded (first call: initialisation included); back ends by their proved contracts; allocator entry points stubbed to panic" replay=none
     #[kani::proof]
     #[kani::unwind(34)]
     #[kani::stub(std_detect::detect::cache::test, verif_support::model_detect_test)]
+    #[kani::stub(alloc::alloc::alloc, verif_support::no_alloc)]
+    #[kani::stub(alloc::alloc::alloc_zeroed, verif_support::no_alloc)]
+    #[kani::stub(alloc::alloc::realloc, verif_support::no_realloc)]
     #[kani::stub(super::super::x86_avx2::aggregate_128, m128)]
     #[kani::stub(super::super::x86_ssse3::aggregate_128, m128)]
     #[kani::stub(super::super::x86_sse2::aggregate_128, m128)]
     #[kani::stub(super::super::naive::aggregate_128, n128)]
     pub fn ob_dispatch_128() { check_dispatch::<32, 128>(super::super::aggregate_128) }
-    // @ob id=agg.dispatch.256 props=C07,C01,C18 rows=simd quick=- kind=HC+stub fn=generate::bucket_aggregation::aggregate_256 domain="all CPU feature masks (2^128) x all inputs; OnceLock executed single-threaded; back ends by their proved contracts" replay=none
+    // @ob id=agg.dispatch.256 props=C07,C01,C18 rows=simd quick=- kind=HC+stub fn=generate::bucket_aggregation::aggregate_256 domain="all CPU feature masks (2^128) x all inputs; OnceLock executed single-threaded (first call: initialisation included); back ends by their proved contracts; allocator entry points stubbed to panic" replay=none
     #[kani::proof]
     #[kani::unwind(66)]
     #[kani::stub(std_detect::detect::cache::test, verif_support::model_detect_test)]
+    #[kani::stub(alloc::alloc::alloc, verif_support::no_alloc)]
+    #[kani::stub(alloc::alloc::alloc_zeroed, verif_support::no_alloc)]
+    #[kani::stub(alloc::alloc::realloc, verif_support::no_realloc)]
     #[kani::stub(super::super::x86_avx2::aggregate_256, m256)]
     #[kani::stub(super::super::x86_ssse3::aggregate_256, m256)]
     #[kani::stub(super::super::x86_sse2::aggregate_256, m256)]
